@@ -171,7 +171,23 @@ def bond_glue(rep):
     rep.ob("O3.3", "R15", fi, ok, sd[0] if sd else "setdefault('standard_order')", "an untouched substrate bond has standard_order 0")
     # (2) additive path
     adds = [(t, v, st) for t, v, st in init if norm(t.value) != "data"]
-    rep.need("R15", len(adds), 1, "host_attr['order'] = (...) on the additive path")
+    # wholesale overwrites of an existing substrate bond are only sound when the template bond exists on the
+    # reactant side too (then the matcher guarantees equal reactant-side orders)
+    ups = [c for c in recv_calls(fi.node, None, "update") if c.args and norm(c.args[0]) == "rc_attr"]
+    for c in ups:
+        gs = guards_of(pm, c, fi.node)
+        guarded = False
+        for g, sense in gs:
+            if isinstance(g, ast.Compare) and isinstance(g.left, ast.Subscript) and is_const(g.left.slice, 0) and is_const(g.comparators[0]) \
+                    and const(g.comparators[0]) == 0:
+                if (isinstance(g.ops[0], ast.Eq) and not sense) or (isinstance(g.ops[0], ast.NotEq) and sense):
+                    guarded = True
+        rep.ob("O3.3", "R15", fi, guarded, f"{norm(c)} under {[norm(g) for g, _ in gs]}",
+               "an existing substrate bond may take the template's order pair only if the template bond exists on the reactant side (order[0] != 0); "
+               "otherwise the reactant side of the result loses a substrate bond", node=c)
+    if not adds:
+        rep.ob("O3.3", "R15", fi, False, "no additive path for bonds formed across an existing substrate bond",
+               "a template bond that is new on the product side but lands on an existing substrate bond must ADD its order on the product side", node=fi.node)
     for t, v, st in adds:
         host_attr = norm(t.value)
         gs = guards_of(pm, st, fi.node)
@@ -303,6 +319,36 @@ def schema(rep):
     for side, idx, n in reads:
         rep.ob("O3.5", "R3a", eh, isinstance(idx, int) and idx < len(order) and order[idx] == "hcount", n,
                "hydrogen bookkeeping reads the writer's hcount position")
+    # hydrogen migration: every recorded migration moves exactly ONE hydrogen (one explicit H node is created per entry)
+    pmh = parent_map(eh.node)
+    apps = [c for c in walk_local(eh.node) if isinstance(c, ast.Call) and norm(c.func) == "migrations.append"]
+    rep.need("R15", len(apps), 1, "migrations.append in _explicit_h")
+    for c in apps:
+        from ..facts import enclosing_loops
+        lps = enclosing_loops(pmh, c, eh.node)
+        inner = lps[0] if lps else None
+        per_unit = None
+        if isinstance(inner, ast.For) and isinstance(inner.iter, ast.Call) and call_name(inner.iter) == "range" and len(inner.iter.args) == 1 \
+                and norm(inner.iter.args[0]) == "count":
+            per_unit = True   # one iteration per unit of the donor's surplus
+        elif isinstance(inner, ast.While):
+            decs = [n for n in walk_local(inner) if isinstance(n, ast.AugAssign) and norm(n.target) == "count" and isinstance(n.op, ast.Sub)]
+            per_unit = len(decs) == 1 and is_const(decs[0].value, 1)
+        rep.ob("O3.2", "R15", eh, per_unit, f"migrations.append inside `{norm(inner)[:50] if inner is not None else '?'}`",
+               "each recorded migration accounts for exactly one unit of the donor's hydrogen surplus (hydrogen count is conserved)", node=c)
+        caps = [(t, v, st) for t, v, st in assigned_subscripts(inner if inner is not None else eh.node) if norm(t.value) == "recips"]
+        okc = None
+        if caps:
+            v = caps[0][1]
+            okc = isinstance(v, ast.Tuple) and len(v.elts) == 2 and isinstance(v.elts[1], ast.BinOp) and isinstance(v.elts[1].op, ast.Sub) and is_const(v.elts[1].right, 1)
+        rep.ob("O3.2", "R15", eh, okc, caps[0][2] if caps else "recips[...] = (recv, rcap - 1)", "and exactly one unit of the recipient's deficit", node=c)
+    news = [c for c in walk_local(eh.node) if isinstance(c, ast.Call) and norm(c.func) == "rc.add_node"]
+    mloop = [l for l in walk_local(eh.node) if isinstance(l, ast.For) and norm(l.iter) == "migrations"]
+    okn = len(news) == 1 and len(mloop) == 1 and any(x is news[0] for x in ast.walk(mloop[0])) and is_const(kwarg(news[0], "element"), "H")
+    rep.ob("O3.2", "R15", eh, okn, news[0] if news else "rc.add_node", "one explicit hydrogen atom is created per recorded migration", node=mloop[0] if mloop else eh.node)
+    nid = [d for d in local_defs(eh.node).get("next_id", []) if d.kind == "assign"]
+    okf = bool(nid) and norm(nid[0].value).replace(" ", "").startswith("max((nforninrc.nodesifisinstance(n,int)),default=-1)+1")
+    rep.ob("O3.2", "R15", eh, okf, nid[0].stmt if nid else "next_id", "new hydrogen ids start above the largest existing node id")
     # SynRule.__init__: rebuild replaces only the hcount slot, left for member 0, right for member 1
     ri = rep.f(RULE, "SynRule.__init__")
     defs = local_defs(ri.node)
